@@ -11,6 +11,8 @@ COMMON_TRUSTED = [
 
 # (file under coq/Gen, acra-vh arguments that print it): regenerated from /repo on every run
 GENERATORS = [
+    ("ColumnResolveConsts.v", ["c04colconsts"]),
+    ("ColumnResolveWitness.v", ["c04colwitness"]),
     ("AuditLogCanon.v", ["auditlogcanon"]),
     ("ParsersConsts.v", ["x14parconsts"]),
     ("MysqlSessionConsts.v", ["x05myconsts"]),
@@ -587,7 +589,8 @@ PROPS = {
         "properties": [
             "C04",
             "C04_mysql",
-            "C04_portal"
+            "C04_portal",
+            "C04_resolution"
         ],
         "domains": [
             {
@@ -610,6 +613,13 @@ PROPS = {
                 "n_quick": 60,
                 "n_thorough": 600,
                 "model": True
+            },
+            {
+                "name": "c04col",
+                "run_vo": "Model/RunColumnResolve.vo",
+                "n_quick": 8,
+                "n_thorough": 150,
+                "model": True
             }
         ],
         "trusted": [
@@ -621,11 +631,13 @@ PROPS = {
             "MySQL statement analysis (encryptor/mysql on sqlparser trees), placeholder mapping, COM_STMT_EXECUTE packet re-encoding and the result row handlers are covered by the end-to-end oracle and the Sess/Read replay on the abstract statement form; the literal coder (dbDataCoder.go + UpdateExpressionValue + SQLVal.Format) is modelled and replayed byte for byte (op MyLit); utf8.Valid / strconv.Atoi are parameters of the model (their answers are part of the replayed op)",
             "portal domain (c04portal, harness/vh/pgportal.go): message-level scripted client and a portal-capable fake back end written from the PostgreSQL protocol documentation (statement runs at the first Execute, max_rows / PortalSuspended, skip-to-Sync after an error, portals dropped at Sync outside a transaction block, a simple Query ignored while skipping); the back end waits after every CommandComplete / PortalSuspended / EmptyQueryResponse / ErrorResponse / ReadyForQuery until the scripted client has received it and samples pendingQueryPackets (hook decryptor/postgresql/export_verif_portal.go VerifPendingEntries) before it answers an Execute: the head of that sample is replayed on Model/ProxyPortal.v; the client side of the proxy is never slowed down (pipelining is real); the row oracle compares what the client received with what the back end sent for the same Execute (terminator log of the back end)",
             "portal model: the theorems C04_portal_* are about the queue + an abstract in-order back end (Model/ProxyPortal.v Part 2); which column settings a queue entry selects (statement analysis of the text it carries) and the result-format handling stay covered by the row oracle only; RowDescription type OIDs in pipelined sessions are not checked (handleRowDescription uses the session's last parsed statement); typed (data_type: str) columns occur in this domain only as an indicator of the settings used for a row",
+            "statement analysis (domain c04col, Properties/C04_resolution.v): the sqlparser front end (encryptor/mysql queryDataEncryptor.go + utils.go, encryptor/base query_data_item.go, config schema lookups, ColIdent/TableIdent spellings of sqlparser/ast.go) is modelled over the generic tree form of the REAL ASTs (reflection export harness/cmd/acra-vh/c05pat_tree.go; kinds/fields Gen/CensorKinds.v, SQLVal type numbers Gen/ColumnResolveConsts.v, witness trees Gen/ColumnResolveWitness.v: all regenerated every run) and replayed: OnQuery of the encrypting instance with a recording DataEncryptor (which SQLVal node, by tree path, with which setting; registered placeholder settings; nothing else in the AST changed), OnBind with recording BoundValues, the settings-only instance's GetQueryEncryptionSettings; no acra hook is used; trusted: the yacc parser itself, strings.ToLower = ASCII lower (generated identifiers are ASCII), the literal coder (Decode is assumed to succeed with a non-empty result on a non-empty literal: generated literals are well-formed; C04_mysql MyLit owns it), the mapping of tree paths by the harness's own reflection walk (same child numbering as the export); the SPEC (Model/ColumnResolveSpec.v) is additionally compared with the generator's own ground truth (it knows the table/column of every value and select item it writes) on every case; the PostgreSQL front end (encryptor/postgresql on pg_query trees) is NOT modelled: it stays covered by the end-to-end oracle of domain c04 only; the sqlparser front end is also exercised under the PostgreSQL dialect of sqlparser (quoted identifiers, $n placeholders), which is how encryptor/mysql's own unit tests use it, not a production path",
             "MySQL replay conventions: INSERT .. ON DUPLICATE KEY UPDATE on an existing key = abstract Update, on a fresh key = abstract Insert (its ON DUPLICATE values oracle-only); statements MySQL rejects (tuple length <> column count) = abstract Other; scenarios with NULL parameters or the known-finding shape are oracle-only"
         ],
         "assumptions": [
             "Correct C as an explicit premise; tape/key well-formedness premises of the C01 theorems",
             "encryptor config column lists agree with the database's column order (SELECT * / schema-ordered VALUES)",
+            "C04_resolution_*: write_regular = what a statement accepted by the database satisfies (UPDATE: a plain table is updated, tables visible under distinct names, an unqualified SET target is a column of one updated table only); result columns: read_supported (SELECT over a list of plain tables under distinct non-empty names; column references, stars, other expressions) and a known number of result columns; composition: cfg_regular (distinct table names, encrypted columns listed in `columns`)",
             "C04_portal_*: the database answers the forwarded messages in order as the PostgreSQL protocol prescribes (one terminator per Execute, skip to Sync after an error, ReadyForQuery per Sync / simple Query); the client sends a simple Query only when no extended-protocol message is unsynced (PostgreSQL ignores such a Query while it skips to Sync); multi-statement simple queries are outside (acra documents them as unsupported)"
         ]
     },
